@@ -49,10 +49,10 @@ sim_claim("C19", "twin worlds from one tape differing only in URN secrets (non-i
   "Fields that carry URNs by contract are projected away by an explicit list; transfer_airtime is excluded (its service errors name the number by contract); presence tests on URNs (empty value) are allowed by design.")
 
 CLAIMED["C16"] = ("fault_enumeration",
-  "fault injection on stored definition bytes served by the simulated asset store: exhaustive single storage faults per definition (truncation at every offset; per JSON path deletion, 11 wrong-type replacements, duplicate member) plus seeded multi-fault combinations and bit flips, consumed through every entry point a host uses, under recover + watchdog",
-  "Decides the rejection clause of C16 only: every definition in the repository's testdata/specdata (142 distinct, spec 13.0-13.6 and legacy) and generated flows are damaged by every single storage fault and by seeded multi-faults, then consumed by MigrateToLatest, MigrateToVersion (each version), Clone, ReadFlow, the lazy Flows().Get of a SessionAssets over the simulated store, Inspect/marshal/ChangeLanguage, and NewSession + reload + resumes on whatever was accepted. Oracle: an error, or a flow on which a session runs - never a panic or hang. The single-fault space of each corpus definition is enumerated completely.",
-  "Migration equivalence/idempotence of valid old definitions (the other clauses of C16) is only monitored on the corpus (second migration is a no-op, UUID kept, read-marshal-read fixpoint), not claimed: it is a pure function of the definition. Callers pass migrations.DefaultConfig as every caller in the repository does.",
-  "DESIGN.md §5 C16")
+  "fault injection on stored definition bytes served by the simulated asset store: exhaustive single storage faults per definition (truncation at every offset; per JSON path deletion, 11 wrong-type replacements, duplicate member; type swaps) plus seeded multi-fault combinations and bit flips, consumed through every entry point a host uses, under recover + watchdog; stability clauses checked on whatever is still accepted",
+  "Every definition in the repository's testdata/specdata (142 distinct, spec 13.0-13.6 and legacy) and generated flows are damaged by every single storage fault and by seeded multi-faults, then consumed by MigrateToLatest, MigrateToVersion (each version), Clone, ReadFlow, the lazy Flows().Get of a SessionAssets over the simulated store, Inspect/marshal/ChangeLanguage, and NewSession + reload + resumes on whatever was accepted. Oracles: (1) rejection clause - an error, or a flow on which a session runs, never a panic or hang; (2) stability clauses on the stored definition and on every path-deleted / path-replaced / type-swapped variant that still migrates and loads (i.e. is a valid older or current definition by the library's own judgment): flow UUID kept, for 13.x sources every node, exit UUID and destination kept in order, legacy entry node first and legacy action/rule sets kept as nodes, a current-version definition returned byte-identical, second migration a no-op, version-by-version migration byte-equal to migration in one go (UUID seam reset), read -> marshal -> read a fixpoint. The single-fault space of each corpus definition is enumerated completely.",
+  "That expression rewrites done by migrations preserve what each template evaluates to is a pure function of the template text (no fault, schedule or history in it) and is not claimed. Variants with duplicate members or bit noise are ambiguous to read and are checked for rejection only. Callers pass migrations.DefaultConfig as every caller in the repository does.",
+  "DESIGN.md §5 C16, B.2")
 
 CLAIMED["C09"] = ("exploration",
   "deterministic simulation of goroutine schedules: seeded baton scheduler (norace plain-word hand-over at every seam call and rewritten lock attempt) under the Go race detector with sync.Pool neutralised by a build overlay; outputs compared with fresh-process solo runs",
